@@ -5,8 +5,13 @@
                        file, sha256 of every parity file, the conf template, the options used)
   replay(binary, name, workdir)  unpacks one array and runs the binary under test on it: check, status, list,
                        fix after deleting every single data disk in turn, fix after deleting `np` disks at once
-                       (needs every parity level), and regeneration of the deleted parity files.
-                       Returns (list of failures, number of commands run).
+                       (needs every parity level), regeneration of the deleted parity files, and -- for split
+                       parity layouts -- loss / truncation of every single parity split file together with data
+                       whose parity lives in the OTHER splits (the set that must come back was recorded with the
+                       pinned binary at creation time: manifest key 'split_scenarios').
+                       Arrays frozen in the middle of a rehash (content has the 'c' and the 'C' record, blocks
+                       flagged "to rehash") go through the same repairs.
+                       Returns (list of failures, number of commands run, details).
 
 python3 harness/py/c16_arrays.py make     regenerates the vendored arrays (not done by the check)."""
 import os, sys, json, tarfile, hashlib, shutil, subprocess, random, itertools, io
@@ -18,6 +23,8 @@ FLAGS = ['--test-skip-device', '--test-skip-self', '--no-warnings', '--test-forc
 LEVELS = ['parity', '2-parity', '3-parity', '4-parity', '5-parity', '6-parity']
 
 # name, hash option, hashsize, number of parities, z mode, data disks, split (files per parity), parity limit
+LIM_B2 = 5200
+LIM_B3 = 3000
 SPECS = [
     dict(name='a1_murmur3_h16_p1', hash='murmur3', hashsize=16, np=1, z=False, nd=2, split=1),
     dict(name='a2_spooky2_h16_p2', hash='spooky2', hashsize=16, np=2, z=False, nd=3, split=1),
@@ -27,6 +34,14 @@ SPECS = [
     dict(name='a6_murmur3_h4_p5', hash='murmur3', hashsize=4, np=5, z=False, nd=6, split=1),
     dict(name='a7_spooky2_h16_p6', hash='spooky2', hashsize=16, np=6, z=False, nd=7, split=1),
     dict(name='a8_murmur3_h16_p2_split3', hash='murmur3', hashsize=16, np=2, z=False, nd=3, split=3, limit=2500),
+    # frozen in the middle of a rehash: written with `hash`, then `rehash` to `rehash_to` (every block flagged "to rehash",
+    # hashes still those of (previous kind, previous seed)); scrub_even converts the even positions only
+    dict(name='a9_rehash_murmur3_to_spooky2_all_p2', hash='murmur3', rehash_to='spooky2', hashsize=16, np=2, z=False, nd=3, split=1),
+    dict(name='b1_rehash_spooky2_to_murmur3_half_h8_p1', hash='spooky2', rehash_to='murmur3', scrub_even=True, hashsize=8, np=1, z=False, nd=3, split=1),
+    # one parity level split over 3 files, data reaching the 2nd and 3rd file
+    dict(name='b2_spooky2_h16_p1_split3', hash='spooky2', hashsize=16, np=1, z=False, nd=2, split=3, limit=LIM_B2, nfiles=9),
+    # mid-rehash AND split, two levels
+    dict(name='b3_rehash_murmur3_to_spooky2_p2_split3', hash='murmur3', rehash_to='spooky2', hashsize=16, np=2, z=False, nd=3, split=3, limit=LIM_B3),
 ]
 
 ODD_NAMES = [b'plain.bin', b'with space.txt', b'caf\xc3\xa9-\xe2\x82\xac.dat', b'bad\xff\xfeutf8', b'ctl\x01\x7fx',
@@ -60,15 +75,16 @@ def conf_text(spec, root):
     return '\n'.join(lines) + '\n'
 
 
-def extra_opts(spec):
-    o = ['--test-force-%s' % spec['hash']]
+def extra_opts(spec, creating=False):
+    # a frozen mid-rehash array is used with the NEW hash as the platform's best hash (no new rehash is proposed)
+    o = ['--test-force-%s' % (spec['hash'] if creating or not spec.get('rehash_to') else spec['rehash_to'])]
     if spec.get('limit'):
         o.append('--test-parity-limit=%d' % spec['limit'])
     return o
 
 
-def run(binary, root, spec, cmd, extra=()):
-    p = subprocess.run([binary] + FLAGS + extra_opts(spec) + ['-c', os.path.join(root, 'snapraid.conf')] + list(cmd) + list(extra),
+def run(binary, root, spec, cmd, extra=(), creating=False, more=()):
+    p = subprocess.run([binary] + FLAGS + extra_opts(spec, creating) + list(more) + ['-c', os.path.join(root, 'snapraid.conf')] + list(cmd) + list(extra),
                        stdout=subprocess.PIPE, stderr=subprocess.STDOUT, timeout=120)
     return p.returncode, p.stdout.decode('utf-8', 'replace')
 
@@ -80,7 +96,7 @@ def populate(root, spec, rng):
     for d in range(spec['nd']):
         droot = os.path.join(root, 'd%d' % (d + 1)).encode()
         os.makedirs(droot, exist_ok=True)
-        nfiles = 3 + (d % 3)
+        nfiles = spec.get('nfiles', 3 + (d % 3))
         for j in range(nfiles):
             name = ODD_NAMES[(k * 5 + d) % len(ODD_NAMES)]
             if j and name in [f[1] for f in files.get(d, [])]:
@@ -136,14 +152,24 @@ def make_one(binary, spec, base):
     rng = random.Random('c16-' + spec['name'])
     populate(root, spec, rng)
     open(os.path.join(root, 'snapraid.conf'), 'w').write(conf_text(spec, root))
-    rc, out = run(binary, root, spec, ['sync'])
+    rc, out = run(binary, root, spec, ['sync'], creating=True)
     if rc != 0:
         raise RuntimeError('sync failed for %s:\n%s' % (spec['name'], out))
+    if spec.get('rehash_to'):
+        rc, out = run(binary, root, spec, ['rehash'])
+        if rc != 0:
+            raise RuntimeError('rehash failed for %s:\n%s' % (spec['name'], out))
+        if spec.get('scrub_even'):
+            rc, out = run(binary, root, spec, ['scrub'], more=['--test-force-scrub-even'])
+            if rc != 0:
+                raise RuntimeError('scrub failed for %s:\n%s' % (spec['name'], out))
     rc, out = run(binary, root, spec, ['check'])
     if rc != 0:
         raise RuntimeError('check failed for %s:\n%s' % (spec['name'], out))
     man = manifest_of(root, spec)
     man['spec'] = spec
+    if spec['split'] > 1:
+        man['split_scenarios'] = record_split_scenarios(binary, root, spec, man)
     man['content_sha256'] = sha(os.path.join(root, 'content', 'snapraid.content'))
     man['content_magic'] = open(os.path.join(root, 'content', 'snapraid.content'), 'rb').read(8).decode()
     man['created_by'] = subprocess.run([binary, '--version'], stdout=subprocess.PIPE).stdout.decode().strip()
@@ -159,14 +185,100 @@ def make_one(binary, spec, base):
     return tp, man
 
 
-def make_all(binary='/repo/snapraid'):
+def damage_split(root, fname, mode, bs=1024):
+    """lose a parity split file ('remove': the disk was replaced, fix recreates the file empty) or cut it to half of
+    its blocks ('truncate')"""
+    p = os.path.join(root, 'par', fname)
+    if mode == 'remove':
+        os.remove(p)
+    else:
+        n = os.path.getsize(p) // bs
+        os.truncate(p, (n // 2) * bs)
+
+
+def snapshot_tree(root):
+    """bytes of the whole array directory, to put it back between scenarios"""
+    buf = io.BytesIO()
+    with tarfile.open(fileobj=buf, mode='w', format=tarfile.PAX_FORMAT) as t:
+        t.add(root, arcname='.')
+    return buf.getvalue()
+
+
+def restore_tree(root, blob, man):
+    shutil.rmtree(root.encode())
+    os.makedirs(root)
+    with tarfile.open(fileobj=io.BytesIO(blob)) as t:
+        t.extractall(root)
+    for rel, m in man['data'].items():
+        os.utime(os.path.join(root.encode(), rel.encode('latin-1')), ns=(1500000000 * 10 ** 9, m['mtime_ns']))
+
+
+def parity_state(root, man):
+    """differences of the parity files with the reference: bytes and recorded layout (sizes)"""
+    bad = []
+    for n, m in man['parity'].items():
+        p = os.path.join(root, 'par', n)
+        if not os.path.exists(p):
+            bad.append('%s missing' % n)
+            continue
+        got = open(p, 'rb').read()
+        if len(got) != m['size']:
+            bad.append('%s has %d bytes, reference layout %d' % (n, len(got), m['size']))
+        elif hashlib.sha256(got).hexdigest() != m['sha256']:
+            bad.append('%s differs from the reference parity' % n)
+    return bad
+
+
+def record_split_scenarios(binary, root, spec, man):
+    """with the PINNED binary: for every used split file of every level, removed or truncated, and every data disk,
+    which files of that disk come back when they are lost together with the split.  First the whole disk; when the
+    reference cannot do that (one parity level: the positions held by the lost split are gone) the files that
+    are recoverable one by one, verified together."""
+    blob = snapshot_tree(root)
+    out = []
+    disks = ['d%d' % (d + 1) for d in range(spec['nd'])]
+
+    def attempt(fname, mode, disk, files):
+        restore_tree(root, blob, man)
+        damage_split(root, fname, mode)
+        if files is None:
+            wipe_disk(root, disk)
+        else:
+            for rel in files:
+                os.remove(os.path.join(root.encode(), rel.encode('latin-1')))
+        rc, o = run(binary, root, spec, ['fix'])
+        bad = compare_data(root, man)
+        pbad = parity_state(root, man)
+        rc2, o2 = run(binary, root, spec, ['check'])
+        return rc == 0 and not bad and not pbad and rc2 == 0
+
+    for fname in sorted(man['parity']):
+        if man['parity'][fname]['size'] == 0:
+            continue
+        for mode in ('remove', 'truncate'):
+            for disk in disks:
+                if attempt(fname, mode, disk, None):
+                    out.append({'split': fname, 'mode': mode, 'disk': disk, 'files': None})
+                    continue
+                mine = sorted(r for r in man['data'] if r.split('/')[0] == disk and man['data'][r]['size'] > 0)
+                single = [r for r in mine if attempt(fname, mode, disk, [r])]
+                if single and attempt(fname, mode, disk, single):
+                    out.append({'split': fname, 'mode': mode, 'disk': disk, 'files': single})
+    restore_tree(root, blob, man)
+    return out
+
+
+def make_all(binary='/repo/snapraid', only=None):
     base = os.path.join('/dev/shm' if os.path.isdir('/dev/shm') else '/var/tmp', 'c16_mkarrays.%d' % os.getpid())
     os.makedirs(base)
     try:
         for spec in SPECS:
+            if only and spec['name'] not in only:
+                continue
             tp, man = make_one(binary, spec, base)
-            print('%s: %d bytes, %d files, parity %s, content %s' % (spec['name'], os.path.getsize(tp), len(man['data']),
-                  {k: v['size'] for k, v in man['parity'].items()}, man['content_magic']))
+            print('%s: %d bytes, %d files, parity %s, content %s, split scenarios %s' % (spec['name'], os.path.getsize(tp), len(man['data']),
+                  {k: v['size'] for k, v in man['parity'].items()}, man['content_magic'],
+                  [(x['split'], x['mode'], x['disk'], 'ALL' if x['files'] is None else len(x['files'])) for x in man.get('split_scenarios', [])]))
     finally:
         shutil.rmtree(base, ignore_errors=True)
 
@@ -300,12 +412,61 @@ def replay(binary, name, work, thorough=False):
     if pbad:
         fails.append({'array': name, 'step': 'parity rebuild', 'parity_differs': pbad, 'output_tail': out[-400:]})
     step('check after rebuild', ['check'])
+    # split layouts: every used split file lost or cut short, together with data whose parity lives elsewhere; what the
+    # pinned binary brought back must come back, the parity must be rebuilt in the recorded layout, and check must pass
+    scen = man.get('split_scenarios', [])
+    if not thorough:
+        # quick: every (split, mode) once, disks in rotation
+        seen, pick = set(), []
+        for k, x in enumerate(scen):
+            key = (x['split'], x['mode'])
+            if key not in seen and (k % max(1, spec['nd'])) == (len(seen) % max(1, spec['nd'])):
+                seen.add(key)
+                pick.append(x)
+        for x in scen:
+            if (x['split'], x['mode']) not in seen:
+                seen.add((x['split'], x['mode']))
+                pick.append(x)
+        scen = pick
+    det['split_scenarios'] = len(scen)
+    for x in scen:
+        shutil.rmtree(root.encode())
+        unpack(name, work, man)
+        damage_split(root, x['split'], x['mode'])
+        if x['files'] is None:
+            wipe_disk(root, x['disk'])
+        else:
+            for rel in x['files']:
+                os.remove(os.path.join(root.encode(), rel.encode('latin-1')))
+        what = 'fix after %s of parity split %s and loss of %s' % (x['mode'], x['split'], x['disk'] if x['files'] is None else '%d files of %s' % (len(x['files']), x['disk']))
+        ok, out = step(what, ['fix'])
+        bad = compare_data(root, man)
+        if bad:
+            fails.append({'array': name, 'step': what, 'restored_data_differs': bad[:6], 'output_tail': out[-400:]})
+        pbad = parity_state(root, man)
+        if pbad:
+            fails.append({'array': name, 'step': what, 'parity_layout_or_bytes_differ': pbad, 'output_tail': out[-400:]})
+        step('check after: ' + what, ['check'])
     return fails, ncmd, det
 
 
 if __name__ == '__main__':
     if len(sys.argv) > 1 and sys.argv[1] == 'make':
-        make_all(sys.argv[2] if len(sys.argv) > 2 else '/repo/snapraid')
+        # make <binary> [array names...]: existing arrays are only rewritten when named (their hash seeds are random)
+        make_all(sys.argv[2] if len(sys.argv) > 2 else '/repo/snapraid', only=sys.argv[3:] or None)
+    elif len(sys.argv) > 1 and sys.argv[1] == 'scenarios':
+        # scenarios <pinned binary> <array name>: add 'split_scenarios' to the manifest of an existing array
+        import tempfile
+        binary, n = sys.argv[2], sys.argv[3]
+        man = json.load(open(os.path.join(ARR, n + '.json')))
+        w = tempfile.mkdtemp(prefix='c16s.', dir='/dev/shm')
+        try:
+            root = unpack(n, w, man)
+            man['split_scenarios'] = record_split_scenarios(binary, root, man['spec'], man)
+            json.dump(man, open(os.path.join(ARR, n + '.json'), 'w'), indent=1, sort_keys=True)
+            print(n, [(x['split'], x['mode'], x['disk'], 'ALL' if x['files'] is None else len(x['files'])) for x in man['split_scenarios']])
+        finally:
+            shutil.rmtree(w, ignore_errors=True)
     elif len(sys.argv) > 1 and sys.argv[1] == 'replay':
         import tempfile
         binary = sys.argv[2]
